@@ -16,6 +16,7 @@ def opOf (j : Json) : Op :=
   match jstr j "t" with
   | "send" => .send ⟨optNat j "pending", faultOf (jstr j "fault")⟩
   | "monitor" => .monitor (jnat j "c")
+  | "cancel" => .cancel
   | _ => .restart
 
 def evJson : Ev → Json
@@ -24,6 +25,7 @@ def evJson : Ev → Json
   | .failed none => mkObj [("t", "failed")]
   | .mon c => mkObj [("t", "mon"), ("c", c)]
   | .restarted => mkObj [("t", "restarted")]
+  | .cancelled => mkObj [("t", "cancelled")]
 
 /-- implementation event; anything unexpected maps to an event the spec rejects -/
 def evOf (j : Json) : Option Ev :=
@@ -32,6 +34,7 @@ def evOf (j : Json) : Option Ev :=
   | "failed" => some (.failed (optNat j "pending"))
   | "mon" => some (.mon (jnat j "c"))
   | "restarted" => some .restarted
+  | "cancelled" => some .cancelled
   | _ => none
 
 def handle (inp impl : Json) : CaseResult :=
